@@ -101,11 +101,13 @@ CONSTANTS
  Mech <- %s
  MaxLen = %d
  Inits <- AllInits
+ RouteSel <- AllRoutes
 INVARIANT TypeOK
 INVARIANT Refines
 INVARIANT Reflexive
 INVARIANT Symmetric
 INVARIANT CopyEqual
+INVARIANT SliceAllEqual
 PROPERTY EditFlips
 %s
 CHECK_DEADLOCK FALSE
@@ -117,6 +119,7 @@ CONSTANTS
  Mech <- MechIntended
  MaxLen = 99
  Inits <- AllInits
+ RouteSel <- AllRoutes
 INVARIANT TraceTypeOK
 INVARIANT Judge
 CHECK_DEADLOCK FALSE
@@ -124,8 +127,8 @@ CHECK_DEADLOCK FALSE
 
 
 def _hist_of(v):
-    """<<"H", init2, hist>> -> (init2, [(act, args, want)])"""
-    return v[1], [(st[0], list(st[1]), bool(st[2])) for st in v[2]]
+    """<<"H", init2, route, hist>> -> (init2, route, [(act, args, want)])"""
+    return v[1], v[2], [(st[0], list(st[1]), bool(st[2])) for st in v[3]]
 
 
 def history_phase(ctx, thorough):
@@ -137,28 +140,31 @@ def history_phase(ctx, thorough):
 
     rng = random.Random(ctx.seed)
     r = ctx.tlc_ok("GridEqHist", HIST_CFG % ("MechIntended", 3, "INVARIANT Emit"), what="== depends on current contents only: all histories of <= 3 steps, 7 initial pairs", workers=8, timeout=1500)
-    hs = [_hist_of(v) for v in r.prints if isinstance(v, tuple) and len(v) == 3 and v[0] == "H"]
+    hs = [_hist_of(v) for v in r.prints if isinstance(v, tuple) and len(v) == 4 and v[0] == "H"]
     if len(hs) < 1000:
         raise Machinery("GridEqHist emitted only %d histories" % len(hs))
     # the mechanisms that let history leak into the answer must be refuted by the model
-    for mech in ("MechDims", "MechMemo"):
+    for mech in ("MechDims", "MechMemo", "MechLatFirst", "MechCoords"):
         rr = ctx.tlc("GridEqHist", HIST_CFG % (mech, 3, ""), what="GridEqHist(%s) must violate Refines" % mech, workers=4, count=False, timeout=600)
-        if rr.violated != "Refines":
+        if rr.violated not in ("Refines", "SliceAllEqual", "CopyEqual"):
             raise Machinery("%s does not violate Refines in the model (vacuous?): violated=%s" % (mech, rr.violated))
     n_all = len(hs)
     if not thorough:
-        first = [h for h in hs if h[1][0][0] in ("Compare", "Copy")]
-        rest = [h for h in hs if h[1][0][0] not in ("Compare", "Copy")]
+        first = [h for h in hs if h[2][0][0] in ("Compare", "Copy")]
+        rest = [h for h in hs if h[2][0][0] not in ("Compare", "Copy")]
+        rng.shuffle(first)
         rng.shuffle(rest)
-        hs = first + rest[:3500]
+        hs = first[:9000] + rest[:5000]
     # longer histories: TLC's simulator
     sim = ctx.tlc("GridEqHist", HIST_CFG % ("MechIntended", 6, "INVARIANT EmitAny"), what="simulated histories of 6 steps", workers=1, count=False, timeout=600,
                   simulate="num=%d" % (4000 if thorough else 600), depth=8, seed=ctx.seed)
-    long_hs = [_hist_of(v) for v in sim.prints if isinstance(v, tuple) and len(v) == 3 and v[0] == "H"]
-    long_hs = [h for h in long_hs if any(st[0] == "Compare" for st in h[1])]
+    long_hs = [_hist_of(v) for v in sim.prints if isinstance(v, tuple) and len(v) == 4 and v[0] == "H"]
+    long_hs = [h for h in long_hs if any(st[0] == "Compare" for st in h[2])]
     jobs = []
-    for k, (init2, steps) in enumerate(hs + long_hs):
-        jobs.append((k + 1, init2, steps, X.SCALES[k % len(X.SCALES)]))
+    for k, (init2, route, steps) in enumerate(hs + long_hs):
+        # longitudes derived from Cartesian coordinates go through floating-point trigonometry: differences of
+        # one ulp or 1e-9 degrees are not representable on that route
+        jobs.append((k + 1, init2, route, steps, X.SCALES[k % len(X.SCALES)] if route == "lonlat" else "deg10"))
     traces = pmap(X.replay, jobs)
     bad = [t for t in traces if "harness_error" in t]
     if bad:
@@ -166,7 +172,7 @@ def history_phase(ctx, thorough):
     path = os.path.join(ctx.work, "eq_traces.ndjson")
     with open(path, "w") as fh:
         for t in traces:
-            fh.write(json.dumps({"tid": t["tid"], "init2": t["init2"], "events": [{k: e[k] for k in ("act", "o", "t", "f", "how", "x", "y", "obs")} for e in t["events"]]}) + "\n")
+            fh.write(json.dumps({"tid": t["tid"], "init2": t["init2"], "route": t["route"], "events": [{k: e[k] for k in ("act", "o", "t", "f", "how", "x", "y", "obs")} for e in t["events"]]}) + "\n")
     v = ctx.tlc_ok("TraceGridEq", TRACE_CFG, what="validate %d recorded histories against GridEqHist" % len(traces), workers=8, env={"TRACE_FILE": path}, count=False, timeout=3000, heap="6g")
     os.remove(path)
     viol, ended = {}, {}
@@ -186,7 +192,7 @@ def history_phase(ctx, thorough):
     ctx.traces += len(traces)
     touch_raised = 0
     for t in traces:
-        key = "hist:%s:%s" % (t["init2"], ";".join("%s(%s)" % (e["act"], ",".join(str(e[k]) for k in ("o", "t", "f", "how", "x", "y") if e[k] not in (0, ""))) for e in t["events"]))
+        key = "hist:%s:%s:%s" % (t["init2"], t["route"], ";".join("%s(%s)" % (e["act"], ",".join(str(e[k]) for k in ("o", "t", "f", "how", "x", "y") if e[k] not in (0, ""))) for e in t["events"]))
         ctx.count(1, key)
         touch_raised += sum(1 for e in t["events"] if e["act"] == "Touch" and "note" in e)
     for tid, vs in sorted(viol.items()):
@@ -194,8 +200,8 @@ def history_phase(ctx, thorough):
         line, clause = sorted(vs)[0]
         evs = t["events"][:line]
         shape = [e["act"] + (":" + e["t"] if e["act"] == "Touch" else ":" + e["how"] if e["how"] else "") for e in evs]
-        ctx.violation("hist:%s" % tid, clause, detail={"init2": t["init2"], "scale": t["scale"], "events": evs, "line": line},
-                      sig={"phase": "history", "shape": shape, "init2": t["init2"]}, replay={"history": [t["init2"], [[e["act"], [e[k] for k in ("o", "t", "f", "how", "x", "y") if e[k] not in (0, "")]] for e in t["events"]]], "scale": t["scale"]})
+        ctx.violation("hist:%s" % tid, clause, detail={"init2": t["init2"], "route": t["route"], "scale": t["scale"], "events": evs, "line": line},
+                      sig={"phase": "history", "shape": shape, "init2": t["init2"], "route": t["route"]}, replay={"history": [t["init2"], t["route"], [[e["act"], [e[k] for k in ("o", "t", "f", "how", "x", "y") if e[k] not in (0, "")]] for e in t["events"]]], "scale": t["scale"]})
     ctx.note("history_phase", {"generated_len3": n_all, "replayed_len3": len(hs), "simulated_len6": len(long_hs), "violating": len(viol), "touch_steps_that_raised": touch_raised})
 
 
